@@ -169,6 +169,9 @@ func c10Run(t *testing.T, e *env, idx int, steps []c10Step) {
 		// every third sequence starts with capability negotiation switched on: its lines are outgoing lines like
 		// any others (the server of these sequences never answers them)
 		conn.Config().EnableCapabilityNegotiation = idx%3 == 2
+		// Config.Timeout is no part of the flood arithmetic: short ones (below one line's charge, below the longest
+		// hold), none at all and the default must all give the same timestamps
+		conn.Config().Timeout = []time.Duration{time.Minute, 0, 500 * time.Millisecond, 3 * time.Second, time.Minute, 5 * time.Second}[idx%6]
 		created = time.Now()
 		if err := conn.Connect(); err != nil {
 			e.R.Inconcl("connect: " + err.Error())
